@@ -59,7 +59,9 @@ EvError ==
   /\ verdicts' = verdicts \cup Tag(Trace[l], Trace[l].what, {"driver-error"})
   /\ UNCHANGED <<ppc, psize, nopen>>
 
-Consume == l <= N /\ (EvCase \/ EvStep \/ EvOpen \/ EvError) /\ l' = l + 1
+\* a remark of the driver (how the body was chosen): no step of the protocol
+EvNote == Trace[l].ev = "note" /\ UNCHANGED <<ppc, psize, verdicts, nopen>>
+Consume == l <= N /\ (EvCase \/ EvStep \/ EvOpen \/ EvError \/ EvNote) /\ l' = l + 1
 Finish ==
   /\ l = N + 1
   /\ LET vseq == SetToSeq(verdicts) IN
